@@ -1,4 +1,47 @@
-(* C11 — interim *)
-From Verif Require Import Base Codebase Exclude GenScan FsScan.
+(* C11 — exactly the non-hidden, non-excluded files of supported languages are analysed.
+   Statements only; proofs in Fs/FsProofsWalk.v over Fs/FsScan.v (os.walk with hidden
+   pruning, exclusion test, lexer-by-name oracle) and Fs/Exclude.v (gitignore matcher
+   for the five pattern classes, compared with pathspec on every generated case). *)
+From Verif Require Import Base Codebase Exclude GenScan FsScan FsProofsWalk.
+From Coq Require Import Relations.
 Open Scope Z_scope.
-Example C11_ex : excluded default_excludes [[115;114;99]; [116;101;115;116;115]; [97;46;112;121]] = true. Proof. vm_compute. reflexivity. Qed.
+
+Section C11.
+  Variable supported : pystr -> option pystr.
+  Variable analyze : pystr -> Z -> analysis.
+
+  Theorem C11_iff : forall patterns c children comps,
+    (exists e b, In (e, b) (scan_tree supported analyze patterns c children) /\ se_path e = comps) <->
+    (exists content, file_at children comps content /\ Forall (fun n => is_hidden n = false) comps /\
+       excluded patterns comps = false /\ supported (last comps []) <> None).
+  Proof. exact (FsProofsWalk.C11_iff supported analyze). Qed.
+
+  (* keyed by its root-relative path, with the checksum of its bytes and (without cache) the analysis of its content *)
+  Theorem C11_key_language_checksum : forall patterns c children e b,
+    In (e, b) (scan_tree supported analyze patterns c children) ->
+    file_at children (se_path e) (se_checksum e) /\ Forall (fun n => is_hidden n = false) (se_path e) /\
+    excluded patterns (se_path e) = false /\
+    exists lang, supported (last (se_path e) []) = Some lang /\
+      (b = true -> se_result e = analyze lang (se_checksum e)) /\ (c = None -> b = true).
+  Proof. exact (FsProofsWalk.C11_sound supported analyze). Qed.
+
+  Theorem C11_once : forall patterns c children, wf_tree children ->
+    NoDup (map (fun eb => se_path (fst eb)) (scan_tree supported analyze patterns c children)).
+  Proof. exact (FsProofsWalk.C11_once supported analyze). Qed.
+
+  (* files that do not qualify never influence the result *)
+  Theorem C11_not_analysed : forall patterns c children children',
+    nq_edit supported patterns [] children children' ->
+    scan_tree supported analyze patterns c children' = scan_tree supported analyze patterns c children.
+  Proof. exact (FsProofsWalk.C11_not_analysed supported analyze). Qed.
+End C11.
+
+Theorem C11_walk : forall children comps c,
+  In (comps, c) (walk_root children) <-> file_at children comps c /\ Forall (fun n => is_hidden n = false) comps.
+Proof. exact walk_spec. Qed.
+
+Print Assumptions C11_iff.
+Print Assumptions C11_key_language_checksum.
+Print Assumptions C11_once.
+Print Assumptions C11_not_analysed.
+Print Assumptions C11_walk.
